@@ -132,7 +132,7 @@ func c13Scenarios(tier string) []*Scenario {
 		// M4: two goroutines allocate at the same time: the same new name (one interner entry) with two tag sets that
 		// share one key in the reporter's tag cache ({"a":"b=c"} and {"a=b":"c"} hash alike). Each value must come
 		// out with the tags it was allocated with, and nobody may be left waiting for a lock.
-		sc4 := &Scenario{Property: "C13", Name: "M4-concurrent-allocation-colliding-tag-sets-" + kind, BoundSet: true, Bound: tierInt(tier, 2, 3), FreeBound: tierInt(tier, 2, 3), Shards: 4}
+		sc4 := &Scenario{Property: "C13", Name: "M4-concurrent-allocation-colliding-tag-sets-" + kind, BoundSet: true, Bound: tierInt(tier, 1, 2), FreeBound: tierInt(tier, 2, 3), Shards: 4}
 		sc4.Body = func(x *Run) {
 			s := newFastSink()
 			x.Vals["sink"] = s
